@@ -93,7 +93,11 @@ def run_cases(mod, ctx, driver_ok):
     MP = getattr(mod, "MODEL_POST", None)
     EQ = getattr(mod, "outputs_match", None) or outputs_equal
 
-    def flush():
+    amp = getattr(ctx, "amplify_ns", None)
+    amp_batch = []
+    import adapters
+
+    def flush(depth=0):
         if not batch:
             return
         ops = [c["op"] for c in batch if c.get("op")]
@@ -130,7 +134,28 @@ def run_cases(mod, ctx, driver_ok):
                 st["specfails"].append(rec)
             if len(st["samples"]) < 6 and (st["evaluations"] in (1, 2) or ctx.rng.random() < 0.0005):
                 st["samples"].append(dict(op=c.get("op"), real=c["real"], got=r, model=m, expected=exp, tag=tag))
+            # the tie of this function is open: the same call on frames that differ in one or two hex digits (model
+            # against code; the property's oracle is not available for them).  Only cases whose own outcome is a value
+            # on which model and code agree are amplified: that agreement shows that the model operation and the real
+            # call are paired in the same output format.
+            real = c["real"]
+            if (amp and not c.get("amplified") and m is not None and r not in ("RE", "EXC", "None") and EQ(r, m)
+                    and real[0].startswith("pyModeS.") and len(real) == 2 and real[1] and isinstance(real[1][0], str)
+                    and len(real[1][0]) in (14, 28) and real[1][0] in c["op"]):
+                t = gen.target(real) if gen.ok else None
+                if t is not None and t[0].split(".")[0] in amp:
+                    m0 = real[1][0]
+                    for _k in range(12):
+                        m1 = adapters.neighbour(ctx.rng, m0)
+                        if ctx.rng.random() < 0.4:
+                            m1 = adapters.neighbour(ctx.rng, m1)
+                        amp_batch.append(dict(op=c["op"].replace(m0, m1), real=(real[0], [m1] + list(real[1][1:])),
+                                              tag="amplified:" + tag, stateful=True, amplified=True))
         batch.clear()
+        if amp_batch and depth == 0:
+            batch.extend(amp_batch)
+            amp_batch.clear()
+            flush(1)
 
     import adapters
     rate = getattr(mod, "INTERFERENCE_RATE", 0.03) * (3 if (ctx.thorough or ctx.escalate) else 1)
@@ -146,21 +171,6 @@ def run_cases(mod, ctx, driver_ok):
             c2["tag"] = "interference:" + c.get("tag", "")
             c2["stateful"] = True
             batch.append(c2)
-        amp = getattr(ctx, "amplify_ns", None)
-        if (amp and c.get("op") and real[0].startswith("pyModeS.") and len(real) == 2 and real[1] and isinstance(real[1][0], str)
-                and len(real[1][0]) in (14, 28) and real[1][0] in c["op"]):
-            t = gen.target(real) if gen.ok else None
-            if t is not None and t[0].split(".")[0] in amp:
-                # the tie of this function is open: the same call on frames that differ in one or two hex digits
-                # (model against code; the property's oracle is not available for them)
-                m0 = real[1][0]
-                for _k in range(12):
-                    m1 = adapters.neighbour(ctx.rng, m0)
-                    if ctx.rng.random() < 0.4:
-                        m1 = adapters.neighbour(ctx.rng, m1)
-                    c3 = dict(op=c["op"].replace(m0, m1), real=(real[0], [m1] + list(real[1][1:])), tag="amplified:" + c.get("tag", ""),
-                              stateful=True)
-                    batch.append(c3)
         if len(batch) >= 20000:
             flush()
     flush()
